@@ -411,6 +411,21 @@ theorem doc_tags_allowed (o : Opts) (name : List Char) (prev : Next) (rest : Lis
 example : dropsStart {} "body".toList [.text "\n".toList false, .startTag "script".toList []] = false ∧
     dropsStart {} "body".toList [.startTag "p".toList []] = true := by decide +kernel
 
+/-- regression for /repo 44fae7b: with KeepEndTags `</body>` stays (and closes the bookkeeping entry) exactly when
+    a written `<body …>` is open; without a written start tag, or without the option, it is dropped as before; a
+    written `<body class=a>` is recorded only under KeepEndTags -/
+example :
+    (endStep { keepEndTags := true } { docOpen := ["body".toList] } "body".toList "</body>".toList []).2 =
+      "</body>".toList ∧
+    (endStep { keepEndTags := true } { docOpen := ["body".toList] } "body".toList "</body>".toList []).1.docOpen = [] ∧
+    (endStep { keepEndTags := true } {} "body".toList "</body>".toList []).2 = [] ∧
+    (endStep {} { docOpen := ["body".toList] } "body".toList "</body>".toList []).2 = [] ∧
+    (endStep { keepEndTags := true } { docOpen := ["html".toList] } "body".toList "</body>".toList []).2 = [] ∧
+    (startPost { keepEndTags := true } {} "body".toList [] none).docOpen = ["body".toList] ∧
+    (startPost { keepEndTags := true, keepDocumentTags := true } {} "body".toList [] none).docOpen = [] ∧
+    (startPost { keepEndTags := true, keepDocumentTags := true } {} "colgroup".toList [] none).docOpen = ["colgroup".toList] ∧
+    (startPost {} {} "body".toList [] none).docOpen = [] := by decide +kernel
+
 end OptionalTags
 
 /-! ## the tag classes of html/table.go against the default rendering -/
